@@ -1169,6 +1169,7 @@ def suite_server(ctx, exe, n):
             head = b"POST / HTTP/1.1\r\nHost: x\r\n" + (b"Content-Encoding: " + enc.encode() + b"\r\n" if enc else b"") \
                 + (b"Transfer-Encoding: chunked\r\n" if chunked else b"Content-Length: %d\r\n" % len(body)) + b"\r\n"
             rec = {"chunks": [], "result": None, "peak_total": 0}
+            bufsize = rng.choice([16, 256, 4096, 2 ** 16])
 
             async def handler(request, rec=rec):
                 payload = request.content
@@ -1176,7 +1177,8 @@ def suite_server(ctx, exe, n):
 
                 async def readany():
                     c = await orig()
-                    rec["chunks"].append(bytes(c))
+                    if rec["result"] is None:      # later calls are the server draining the unread body
+                        rec["chunks"].append(bytes(c))
                     return c
                 payload.readany = readany
                 try:
@@ -1191,7 +1193,7 @@ def suite_server(ctx, exe, n):
             async def go():
                 app = web.Application(client_max_size=cms)
                 app.router.add_post("/", handler)
-                runner, connect = await start_server(app, loop, read_bufsize=rng.choice([16, 256, 4096, 2 ** 16]))
+                runner, connect = await start_server(app, loop, read_bufsize=bufsize)
                 proto, tr = connect()
                 proto.data_received(head)
                 for s in segments(rng, wire):
@@ -1213,7 +1215,7 @@ def suite_server(ctx, exe, n):
                 await asyncio.sleep(0)
                 await runner.cleanup()
                 return out
-            case = {"suite": "server", "cms": cms, "enc": enc, "plain_len": len(plain), "chunked": chunked, "body": body.hex()}
+            case = {"suite": "server", "cms": cms, "bufsize": bufsize, "enc": enc, "plain_len": len(plain), "chunked": chunked, "body": body.hex()}
             try:
                 resp = loop.run_until_complete(asyncio.wait_for(go(), 600))
             except Exception as e:  # noqa
@@ -1240,8 +1242,9 @@ def suite_server(ctx, exe, n):
             acc = sum(len(c) for c in rec["chunks"])
             if cms:
                 # accumulated before the test fires: at most client_max_size + one readany() result, and one
-                # readany() result is bounded by the reader's marks (high + max_length = 3 * max(cms, limit))
-                lim = cms + 3 * max(cms, 2 ** 16) + 1
+                # readany() result is bounded by the reader's marks: high + cap(max_length), low = max(cms, limit)
+                big = max(cms, bufsize)
+                lim = cms + 2 * big + cap_of(enc)(big) + 4096
                 if acc > lim:
                     ctx.violation(dict(case, kind="max_size_accumulate"), f"max_size_accumulate: read() accumulated {acc} bytes with client_max_size={cms}")
             lines.append("RR %d %s" % (cms, " ".join(fw.hexs(c) for c in rec["chunks"])))
